@@ -333,6 +333,14 @@ def run(tier, seed, t0):
             fn(e3)
         except _e3.ENC_ERRORS as ex:
             e3.error(nm, "MIR->SMT encoding of the Prometheus recorder's aggregation chain", ex)
+    # what render() prints for a counter / gauge series is the stored value, in a form that reads back exactly (C08's render encoding)
+    try:
+        import c08
+        c08.render(e3, False, kinds=("counter", "gauge"))
+    except _e3.ENC_ERRORS as ex:
+        e3.error("c08_render_values", "MIR->SMT character-level encoding of Inner::render", ex)
+    # the unit-suffix finding K5 belongs to C08 (it is recorded and reported there): C07 keeps the other obligations of the encoding
+    e3.res.obligations[:] = [o for o in e3.res.obligations if "K5_unit_suffix" not in o.name]
     try:
         import prom_int
         prom_int.scen_ageing(e3, "C07", "c07")
@@ -344,6 +352,6 @@ def run(tier, seed, t0):
 
 def replay(path):
     import replay_e3
-    status, out = replay_e3.run("c07", path)
+    status, out = replay_e3.run("c08" if "/C08/" in path else ("c15" if "summary_across" in path else "c07"), path)
     print(status, out)
     return 1 if status == "reproduced" else 0
